@@ -51,7 +51,8 @@ class C16(core.Check):
                                        'width:24', 'width:32', 'every-line-length-1..40', 'fmt:listing', 'fmt:hex', 'fmt:intel_hex', 'fmt:minhex',
                                        'image-fill:nonzero', 'width:not-a-multiple-of-4', 'zero-length-at-gap-edge', 'gap:align', 'gap:memzone', 'gap:muted', 'gap:zone-org',
                                        'statement-longer-than-96-bytes', 'long-statement:fill', 'long-statement:cstr',
-                                       'stale-longer-output-present', 'image-window-starts-inside-a-statement']}
+                                       'stale-longer-output-present', 'image-window-starts-inside-a-statement',
+                                       'nested-mute-across-includes', 'include-at-mute-depth:2+']}
     required_buckets['every-line-length-1..40'] = 2
     required_buckets['several-statements-per-line'] = 3
 
@@ -152,6 +153,44 @@ class C16(core.Check):
             ids = {id(l): ('p.asm', k + 1) for k, l in enumerate(lines)}
             yield self.make_case(isa, {'p.asm': ''.join(l['text'] + '\n' for l in lines)}, 'p.asm', [], res, ids,
                                  {'width:16', 'statement-longer-than-96-bytes', 'long-statement:' + kind})
+
+    def nested_mute_include_cases(self):
+        """files included at mute depth 0..3 that mute, unmute and include further files themselves: the depth is one counter
+        across all files, and what is muted appears in no format"""
+        isa = gen_prog.layout_isa(16)
+        k = 0
+        for lead in (0, 1, 2, 3):
+            for mid_wrap in (0, 1, 2):
+                for mid_emits in (mid_wrap, max(0, mid_wrap - 1), mid_wrap + 1):
+                    for tail_emits in (lead, max(0, lead - 1)):
+                        k += 1
+                        src = {
+                            'p.asm': ['.byte $A1'] + ['#mute'] * lead + ['#include "mid.asm"'] + ['#emit'] * 1 + ['.byte $A2'] +
+                                     ['#unmute'] * tail_emits + ['.byte $A3', '#emit', '#emit', '#emit', '.byte $A4'],
+                            'mid.asm': ['.byte $B1'] + ['#mute'] * mid_wrap + ['#include "deep.asm"'] + ['#emit'] * mid_emits + ['.byte $B2'],
+                            'deep.asm': ['.byte $C1', '#mute', '.byte $C2', '#unmute', '.byte $C3']}
+                        flat, ids = [], {}
+
+                        def walk(fname):
+                            for n_, t_ in enumerate(src[fname]):
+                                if t_.startswith('#include'):
+                                    walk(t_.split('"')[1])
+                                elif t_ == '#mute':
+                                    flat.append({'k': 'mute', 'text': t_})
+                                elif t_ in ('#emit', '#unmute'):
+                                    flat.append({'k': 'unmute', 'text': t_})
+                                else:
+                                    l_ = {'k': 'data', 'width': 1, 'vals': [int(t_.split('$')[1], 16)], 'text': t_}
+                                    flat.append(l_)
+                                    ids[id(l_)] = (fname, n_ + 1)
+                        walk('p.asm')
+                        res = layout.layout(flat, 16, origin=0, size_of=lambda l, a: gen_prog.byte_line_size(isa, l))
+                        layout.memory_map(res, lambda l: gen_prog.byte_line_bytes(isa, l, None, {'GLOBAL': (0, 65535)}))
+                        if not res.M:
+                            continue
+                        yield self.make_case(isa, {f_: '\n'.join(t_) + '\n' for f_, t_ in src.items()}, 'p.asm', [], res, ids,
+                                             {'width:16', 'included-file', 'include-at-mute-depth:' + str(min(lead, 2)) + ('+' if lead >= 2 else ''),
+                                              'nested-mute-across-includes'})
 
     def gap_cases(self):
         """a gap in the address map made by something other than .org, with zero-length statements at its edges"""
@@ -258,6 +297,7 @@ class C16(core.Check):
         yield from self.corpus_cases(tier)
         yield from self.length_cases()
         yield from self.long_statement_cases()
+        yield from self.nested_mute_include_cases()
         yield from self.compound_cases(tier, seed)
         yield from self.gap_cases()
         yield from self.odd_width_cases()
